@@ -28,7 +28,10 @@ RULE = ("synthetic systems: peptides of 2..15 residues from templates (GLY ALA S
         "whole / group-wise shifted / atom-wise shifted by lattice vectors / wrapped atom by atom across a cell corner, crossed "
         "with periodic in {True, False} (so periodic=False WITH a cell and periodic=True WITHOUT one occur); real systems: residue windows of tests/data structures with hydrogens, jittered and "
         "snapped to the grid; x freq in {0,0.1,0.5,0.99} x cutoffs +-30% x exclude_water x sidechain_only x periodic; "
-        "a case is non-trivial when mdtraj reports at least one bond; distinct by hash of (system, call)")
+        "about a third of the aimed hydrogens are EXACTLY or nearly collinear with donor and acceptor (180 / 0 degrees); "
+        "call histories: on ONE Topology/Trajectory object calls are interleaved with in-place edits that keep n_atoms and "
+        "n_bonds (residue / atom renames, element changes, re-pointed bonds) and every call is compared with the model of the "
+        "topology as it is at that moment; a case is non-trivial when mdtraj reports at least one bond; distinct by hash of (system, call)")
 TRUSTED = ["harness/impl/hbond_impl.py (builds the Topology/Trajectory from the JSON description, calls the public API)",
            "harness/shims/hbond_shim.cpp (exposes the static store_energies)",
            "generator harness/props/C14.py: element/water/sidechain flags of the model topology are derived here from "
@@ -346,6 +349,23 @@ def place(rng, sysd, n_frames, periodic):
     aim = {}
     for h, par in sysd["parent"].items():
         aim[h] = rng.choice(acc) if acc and rng.random() < 0.7 else None
+    # exactly / nearly collinear D-H...A (180 degrees, delta = 0) and exactly folded back A...D-H (0 degrees): legal inputs
+    # on which the law-of-cosines cosine of mdtraj lands at or slightly beyond -1 / +1.  The acceptor is re-positioned on
+    # the grid line through D in every frame: D + k*u, H = D + m*u (+ one grid unit off axis for "nearly").
+    linear = {}
+    used = set()
+    for h, par in sysd["parent"].items():
+        if aim[h] is not None and aim[h] != par and aim[h] not in used and par not in used and rng.random() < 0.3 \
+                and aim[h] not in sysd["parent"].values():
+            u = None
+            while not u or not any(u):
+                u = [rng.randint(-14, 14) for _ in range(3)]
+            lu = math.sqrt(sum(c * c for c in u))
+            m = max(1, int(round(0.1 * G / lu)))
+            k = m + max(1, int(round(rng.uniform(0.13, 0.26) * G / lu)))
+            linear[h] = (aim[h], u, m, k if rng.random() < 0.8 else -k, rng.choice([0, 0, 1]))
+            used.add(aim[h])
+            used.add(par)
     box = None
     if periodic:
         L = [int(rng.choice([1.5, 2.0, 2.5, 3.0]) * G) for _ in range(3)]
@@ -353,13 +373,23 @@ def place(rng, sysd, n_frames, periodic):
     wrap = rng.choice(["whole", "groups", "atomwise", "wrapped"]) if box is not None else "none"
     off = [-rng.randint(0, int(side * G)) for _ in range(3)]
     sysd["wrap"] = wrap
+    sysd["n_linear"] = len(linear)
     frames = []
     for f in range(n_frames):
         jit = rng.choice([0.0, 0.01, 0.03])
         xyz = [None] * n
         for i in heavy:
             xyz[i] = [pts[i][k] + int(round(rng.gauss(0, jit) * G)) for k in range(3)]
+        for h, (a, u, m, k, near) in linear.items():
+            par = sysd["parent"][h]
+            xyz[a] = [xyz[par][c] + k * u[c] for c in range(3)]
         for h, par in sysd["parent"].items():
+            if h in linear:
+                a, u, m, k, near = linear[h]
+                xyz[h] = [xyz[par][c] + m * u[c] for c in range(3)]
+                if near:
+                    xyz[h][rng.randrange(3)] += 1
+                continue
             if aim[h] is not None and aim[h] != par:
                 v = [xyz[aim[h]][k] - xyz[par][k] + rng.gauss(0, 0.25) * G * 0.2 for k in range(3)]
             else:
@@ -476,6 +506,89 @@ def real_systems(ctx, n_sys):
     return out
 
 
+def apply_edit_desc(s, st):
+    """the same in-place edit on the description the model is built from"""
+    op = st["op"]
+    flat = [(ri, ai) for ri, r in enumerate(s["residues"]) for ai in range(len(r["atoms"]))]
+    if op == "rename_residue":
+        s["residues"][st["res"]]["name"] = st["name"]
+    elif op == "rename_atom":
+        ri, ai = flat[st["atom"]]
+        s["residues"][ri]["atoms"][ai][0] = st["name"]
+    elif op == "set_element":
+        ri, ai = flat[st["atom"]]
+        s["residues"][ri]["atoms"][ai][1] = st["element"]
+    elif op == "repoint_bond":
+        s["bonds"].pop(st["bond"])
+        s["bonds"].append(sorted(st["new"]))
+
+
+def gen_history(rng, s, tier):
+    """calls interleaved with count-preserving in-place edits that add or remove donors, acceptors, waters, sidechain
+    or backbone atoms"""
+    import copy
+    cur = copy.deepcopy({"residues": s["residues"], "bonds": s["bonds"]})
+    base_calls = gen_calls(rng, tier)
+    steps = [{"op": "call", "call": c} for c in base_calls]        # first use of the object
+    for _ in range(rng.randint(2, 4)):
+        for _e in range(rng.randint(1, 2)):
+            names = [(ri, ai, a[0], a[1], r["name"]) for ri, r in enumerate(cur["residues"]) for ai, a in enumerate(r["atoms"])]
+            kind = rng.choice(["water", "atom", "atom", "element", "element", "residue", "bond"])
+            st = None
+            if kind == "water":
+                cand = [ri for ri, r in enumerate(cur["residues"]) if r["name"] in ("HOH", "W")]
+                if cand:
+                    ri = rng.choice(cand)
+                    st = {"op": "rename_residue", "res": ri, "name": "W" if cur["residues"][ri]["name"] == "HOH" else "HOH"}
+            elif kind == "residue":
+                ri = rng.randrange(len(cur["residues"]))
+                st = {"op": "rename_residue", "res": ri, "name": rng.choice(["PRO", "ALA", "XYZ", "GLY", "HOH"])}
+            elif kind == "atom":
+                swap = {"O": "OT1", "OT1": "O", "N": "NT", "NT": "N", "CA": "CX", "CX": "CA", "C": "CY", "CY": "C",
+                        "H": "HN", "HN": "H", "OG": "O", "HA": "HB9"}
+                cand = [k for k, (ri, ai, nm, el, rn) in enumerate(names) if nm in swap]
+                if cand:
+                    k = rng.choice(cand)
+                    st = {"op": "rename_atom", "atom": k, "name": swap[names[k][2]]}
+            elif kind == "element":
+                k = rng.randrange(len(names))
+                el = names[k][3]
+                st = {"op": "set_element", "atom": k, "element": rng.choice([e for e in ("C", "N", "O", "H", "S") if e != el])}
+            elif kind == "bond" and cur["bonds"]:
+                els = [x[3] for x in names]
+                cand = [bi for bi, (a, b) in enumerate(cur["bonds"]) if "H" in (els[a], els[b])]
+                if cand:
+                    bi = rng.choice(cand)
+                    a, b = cur["bonds"][bi]
+                    h = a if els[a] == "H" else b
+                    other = rng.choice([i for i in range(len(names)) if i != h and els[i] != "H"])
+                    if sorted([h, other]) not in [sorted(x) for x in cur["bonds"]]:
+                        st = {"op": "repoint_bond", "bond": bi, "new": [h, other]}
+            if st is not None:
+                steps.append(st)
+                apply_edit_desc(cur, st)
+        for c in rng.sample(base_calls, min(len(base_calls), rng.randint(2, 4))):
+            steps.append({"op": "call", "call": c})
+    return steps
+
+
+def expand_history(s, results):
+    """one snapshot system per call step: the description as it is at that step, with mdtraj's answer for that step"""
+    import copy
+    cur = copy.deepcopy({"residues": s["residues"], "bonds": s["bonds"]})
+    snaps, k = [], 0
+    for si, st in enumerate(s["history"]):
+        if st["op"] != "call":
+            apply_edit_desc(cur, st)
+            continue
+        snap = {"residues": copy.deepcopy(cur["residues"]), "bonds": copy.deepcopy(cur["bonds"]), "frames": s["frames"],
+                "oob": s["oob"], "calls": [st["call"]], "stream": "history", "wrap": s.get("wrap", "none"),
+                "parent": {}, "n_atoms": s["n_atoms"], "origin": s, "step": si}
+        snaps.append((snap, [results[k]]))
+        k += 1
+    return snaps
+
+
 def build_systems(ctx, n_sys):
     rng = ctx.rng
     out = real_systems(ctx, max(2, n_sys // 4))
@@ -486,6 +599,15 @@ def build_systems(ctx, n_sys):
         s["oob"] = [rng.randint(-2 * G, 2 * G) for _ in range(3)]
         s["calls"] = gen_calls(rng, ctx.tier)
         s["stream"] = "synthetic"
+        out.append(s)
+    # call histories on one object: in-place edits between calls
+    for k in range(max(3, n_sys // 6)):
+        s = make_system(rng, rng.randint(2, 7))
+        s["frames"] = place(rng, s, rng.randint(1, 3), periodic=rng.random() < 0.3)
+        s["oob"] = [rng.randint(-2 * G, 2 * G) for _ in range(3)]
+        s["history"] = gen_history(rng, s, ctx.tier)
+        s["calls"] = []
+        s["stream"] = "history"
         out.append(s)
     # degenerate topologies
     nb = make_system(rng, 2)
@@ -613,8 +735,19 @@ Open Scope Z_scope.
 def run_systems(ctx, systems, batch=4, spec=False):
     sfx = "_spec" if spec else ""
     payload = {"repo": common.REPO, "tmp": ctx.tmp, "shim": SHIM, "G": G,
-               "systems": [{k: s[k] for k in ("residues", "bonds", "frames", "oob", "calls")} for s in systems]}
-    res = ctx.run_impl("hbond_impl.py", payload)["systems"]
+               "systems": [{k: s[k] for k in ("residues", "bonds", "frames", "oob", "calls", "history") if k in s}
+                           for s in systems]}
+    res0 = ctx.run_impl("hbond_impl.py", payload)["systems"]
+    expanded, res = [], []
+    for s, r in zip(systems, res0):
+        if s.get("history") is not None:
+            for snap, rr in expand_history(s, r):
+                expanded.append(snap)
+                res.append(rr)
+        else:
+            expanded.append(s)
+            res.append(r)
+    systems = expanded
     ks_jobs_meta = []
     files, index = [], {}
     for b0 in range(0, len(systems), batch):
@@ -737,6 +870,11 @@ def digest_sys(s):
 
 
 def case_of(s, call_index):
+    if s.get("origin") is not None:
+        o = s["origin"]
+        return {"kind": "history", "residues": o["residues"], "bonds": o["bonds"], "frames": o["frames"], "oob": o["oob"],
+                "history": o["history"], "failing_step": s["step"], "wrap": o.get("wrap", "none"), "stream": "history",
+                "n_atoms": o["n_atoms"]}
     return {"kind": "system", "residues": s["residues"], "bonds": s["bonds"], "frames": s["frames"], "oob": s["oob"],
             "wrap": s.get("wrap", "none"),
             "parent": {str(k): v for k, v in s.get("parent", {}).items()}, "stream": s.get("stream", "replay"),
@@ -848,6 +986,11 @@ def replay(ctx, rec):
         run_store(ctx)
         return
     s = dict(c)
+    if c.get("kind") == "history":
+        s["calls"] = []
+        s["parent"] = {}
+        run_systems(ctx, [s])
+        return
     s["parent"] = {int(k): v for k, v in c.get("parent", {}).items()}
     s["n_atoms"] = sum(len(r["atoms"]) for r in s["residues"])
     run_systems(ctx, [s])
